@@ -14,6 +14,7 @@ namespace Driver
 
 def dispatch (line : String) : String :=
   match line.trimAscii.toString.splitOn " " with
+  | "margs" :: rest => (handleMargs rest).getD "bad-op"
   | "unit" :: rest => (handleUnit rest).getD "bad-op"
   | "aval" :: rest => (handleAval rest).getD "bad-op"
   | "aarch" :: rest => (handleAarch rest).getD "bad-op"
